@@ -76,6 +76,106 @@ type retrySc struct {
 	// Preset names one of the library's Default*RetryPolicyConfiguration constructors (its waits are overridden by WaitNs);
 	// Enabled / RetryMax / Delay are then filled in from it
 	Preset string `json:"preset,omitempty"`
+	// Flavor: "" = the script-controlled context; otherwise a real context of package context:
+	// cancel | cancel-cause | parent-cause (parent WithCancelCause, child WithCancel) | timeout | timeout-cause | deadline-cause |
+	// parent-timeout-cause (parent WithTimeoutCause, child WithCancel).  The timeout flavours end by themselves after TimeoutMs
+	// (an attempt marked ctx_ends_in blocks until then).  Cause: the value handed to the ...Cause constructor / cancel function.
+	Flavor    string `json:"flavor,omitempty"`
+	Cause     string `json:"cause,omitempty"` // custom | wraps-deadline | wraps-canceled | common-timeout | common-cancelled | nil
+	TimeoutMs int    `json:"timeout_ms,omitempty"`
+}
+
+type causeErr struct {
+	msg  string
+	wrap error
+}
+
+func (e *causeErr) Error() string { return e.msg }
+func (e *causeErr) Unwrap() error { return e.wrap }
+
+var causeNames = []string{"", "custom", "wraps-deadline", "wraps-canceled", "common-timeout", "common-cancelled", "nil"}
+
+func causeCode(name string) int64 {
+	for i, n := range causeNames {
+		if n == name {
+			return int64(i)
+		}
+	}
+	return 0
+}
+
+func causeValue(name string) error {
+	switch name {
+	case "custom", "":
+		return &causeErr{msg: "service is shutting down"}
+	case "wraps-deadline":
+		return &causeErr{msg: "budget exhausted", wrap: context.DeadlineExceeded}
+	case "wraps-canceled":
+		return &causeErr{msg: "caller went away", wrap: context.Canceled}
+	case "common-timeout":
+		return commonerrors.ErrTimeout
+	case "common-cancelled":
+		return commonerrors.ErrCancelled
+	}
+	return nil
+}
+
+func timeoutFlavor(f string) bool {
+	return f == "timeout" || f == "timeout-cause" || f == "deadline-cause" || f == "parent-timeout-cause"
+}
+
+// ctxKindOf: what ctx.Err() is once the context has ended
+func ctxKindOf(sc *retrySc) string {
+	switch {
+	case sc.Flavor == "":
+		return sc.CtxKind
+	case timeoutFlavor(sc.Flavor):
+		return "deadline"
+	}
+	return "cancel"
+}
+
+type ctxHandle struct {
+	ctx     context.Context
+	end     func() // ends the context now (cancel flavours) or waits until it has ended by itself (timeout flavours)
+	cleanup func()
+}
+
+func makeCtx(sc *retrySc) ctxHandle {
+	bg := context.Background()
+	d := time.Duration(sc.TimeoutMs) * time.Millisecond
+	if sc.Ctx0 {
+		d = 0
+	}
+	cause := causeValue(sc.Cause)
+	waitDone := func(c context.Context) func() { return func() { <-c.Done() } }
+	switch sc.Flavor {
+	case "cancel":
+		c, cancel := context.WithCancel(bg)
+		return ctxHandle{c, cancel, cancel}
+	case "cancel-cause":
+		c, cancel := context.WithCancelCause(bg)
+		return ctxHandle{c, func() { cancel(cause) }, func() { cancel(nil) }}
+	case "parent-cause":
+		p, pc := context.WithCancelCause(bg)
+		c, cc := context.WithCancel(p)
+		return ctxHandle{c, func() { pc(cause) }, func() { cc(); pc(nil) }}
+	case "timeout":
+		c, cancel := context.WithTimeout(bg, d)
+		return ctxHandle{c, waitDone(c), cancel}
+	case "timeout-cause":
+		c, cancel := context.WithTimeoutCause(bg, d, cause)
+		return ctxHandle{c, waitDone(c), cancel}
+	case "deadline-cause":
+		c, cancel := context.WithDeadlineCause(bg, time.Now().Add(d), cause)
+		return ctxHandle{c, waitDone(c), cancel}
+	case "parent-timeout-cause":
+		p, pc := context.WithTimeoutCause(bg, d, cause)
+		c, cc := context.WithCancel(p)
+		return ctxHandle{c, waitDone(c), func() { cc(); pc() }}
+	}
+	sx := newSctx()
+	return ctxHandle{sx, func() { sx.end(sc.CtxKind) }, func() {}}
 }
 
 var presets = []struct {
@@ -626,8 +726,9 @@ func (e *scriptErr) Unwrap() error {
 func (e *scriptErr) Is(t error) bool { return t == errRetriable && e.retriable }
 
 type call struct {
-	K       int  `json:"k"`
-	CtxDone bool `json:"ctx_done_at_start"`
+	K         int  `json:"k"`
+	CtxDone   bool `json:"ctx_done_at_start"`
+	DoneAtEnd bool `json:"ctx_done_at_end"`
 }
 
 type retryObs struct {
@@ -636,6 +737,9 @@ type retryObs struct {
 	ResID   int    `json:"result_id"`
 	Hung    bool   `json:"hung"`
 	CtxDone bool   `json:"ctx_done_at_return"`
+	// the retry condition was asked about an error that no attempt returned: the wrapper's context error, i.e. the
+	// select between delay timer and ctx.Done() took the timer branch after the context had ended (RetryIf only)
+	CondOnForeignErr int `json:"cond_on_foreign_err"`
 }
 
 func attemptAt(sc *retrySc, k int) attemptSc {
@@ -646,9 +750,11 @@ func attemptAt(sc *retrySc, k int) attemptSc {
 }
 
 func execRetry(sc *retrySc) (o retryObs) {
-	ctx := newSctx()
+	hd := makeCtx(sc)
+	defer hd.cleanup()
+	ctx := hd.ctx
 	if sc.Ctx0 {
-		ctx.end(sc.CtxKind)
+		hd.end()
 	}
 	var mu sync.Mutex
 	var wg sync.WaitGroup
@@ -659,16 +765,19 @@ func execRetry(sc *retrySc) (o retryObs) {
 		mu.Unlock()
 		a := attemptAt(sc, k)
 		if a.CtxEndsIn {
-			ctx.end(sc.CtxKind)
+			hd.end()
 		}
-		if a.CtxEndsInWait {
+		if a.CtxEndsInWait && !timeoutFlavor(sc.Flavor) {
 			wg.Add(1)
 			go func() {
 				defer wg.Done()
 				time.Sleep(2 * time.Millisecond)
-				ctx.end(sc.CtxKind)
+				hd.end()
 			}()
 		}
+		mu.Lock()
+		o.Calls[k].DoneAtEnd = ctx.Err() != nil
+		mu.Unlock()
 		if a.Out == "succ" {
 			return nil
 		}
@@ -691,6 +800,9 @@ func execRetry(sc *retrySc) (o retryObs) {
 			if errors.As(err, &se) {
 				return se.retriable
 			}
+			mu.Lock()
+			o.CondOnForeignErr++
+			mu.Unlock()
 			return sc.RetryCtxErr
 		})
 	}()
@@ -699,7 +811,9 @@ func execRetry(sc *retrySc) (o retryObs) {
 	case err = <-resCh:
 	case <-time.After(20 * time.Second):
 		o.Hung = true
-		ctx.end(sc.CtxKind)
+		if !timeoutFlavor(sc.Flavor) {
+			hd.end()
+		}
 		mu.Lock()
 		o.Calls = append([]call(nil), o.Calls...)
 		mu.Unlock()
@@ -751,11 +865,11 @@ func oracleRetry(r *h.Run, sc *retrySc, o retryObs) {
 	if len(o.Calls) > limit {
 		r.Fail("too-many-attempts"+tag, fmt.Sprintf("%d attempts made, %d configured (enabled=%v)", len(o.Calls), sc.RetryMax, sc.Enabled), rep)
 	}
-	if len(o.Calls) == 0 && !sc.Ctx0 {
+	if len(o.Calls) == 0 && !sc.Ctx0 && !(timeoutFlavor(sc.Flavor) && o.CtxDone) {
 		r.Fail("no-attempt"+tag, "the operation was never attempted although the context was live", rep)
 	}
 	success := false
-	ctxEnded := sc.Ctx0
+	ctxEnded := sc.Ctx0 || o.CtxDone
 	for i, c := range o.Calls {
 		a := attemptAt(sc, c.K)
 		if i > 0 {
@@ -773,7 +887,7 @@ func oracleRetry(r *h.Run, sc *retrySc, o retryObs) {
 		if a.Out == "succ" {
 			success = true
 		}
-		if a.CtxEndsIn || a.CtxEndsInWait {
+		if a.CtxEndsIn || a.CtxEndsInWait || c.DoneAtEnd {
 			ctxEnded = true
 		}
 	}
@@ -807,7 +921,11 @@ func oracleRetry(r *h.Run, sc *retrySc, o retryObs) {
 		okRes = (sc.CtxKind == "cancel" && o.Res == "cancelled") || (sc.CtxKind == "deadline" && o.Res == "timeout")
 	}
 	if !okRes {
-		r.Fail("wrong-error"+tag, fmt.Sprintf("the caller received %s (id %d), which is neither the last attempt's error nor the context's end", o.Res, o.ResID), rep)
+		what := fmt.Sprintf("the caller received %s (id %d), which is neither the last attempt's error nor the context's end", o.Res, o.ResID)
+		if ctxEnded && sc.Flavor != "" {
+			what += fmt.Sprintf(" — context flavour %s with cause %q ended as %s: the result must be of that kind whatever the cause", sc.Flavor, sc.Cause, sc.CtxKind)
+		}
+		r.Fail("wrong-error"+tag, what, rep)
 	}
 }
 
@@ -826,9 +944,27 @@ func coqRetry(sc *retrySc, o retryObs) string {
 	if sc.CtxKind == "deadline" {
 		ck = "CtxDeadline"
 	}
-	cfg := fmt.Sprintf("(mkCfg %s %s %s %s)", h.Bool(sc.Enabled), h.Nat(sc.RetryMax), h.Bool(sc.RetryCtxErr), ck)
-	as := make([]string, len(sc.Script))
-	for i, a := range sc.Script {
+	cfg := fmt.Sprintf("(mkCfg %s %s %s %s %s)", h.Bool(sc.Enabled), h.Nat(sc.RetryMax), h.Bool(sc.RetryCtxErr), ck, h.Z(causeCode(sc.Cause)))
+	script := append([]attemptSc(nil), sc.Script...)
+	if sc.Flavor != "" {
+		// real contexts: WHEN the context ended is an input from the environment; it is taken from what was observed
+		// (done at the start / at the end of each invocation, at return), so that a late timer cannot desynchronise the script
+		for len(script) < len(o.Calls) {
+			script = append(script, attemptSc{Out: "succ"})
+		}
+		endedInside := false
+		for i := range script {
+			script[i].CtxEndsIn, script[i].CtxEndsInWait = false, false
+			if i < len(o.Calls) && !o.Calls[i].CtxDone && o.Calls[i].DoneAtEnd {
+				script[i].CtxEndsIn, endedInside = true, true
+			}
+		}
+		if n := len(o.Calls); n > 0 && o.CtxDone && !endedInside && !sc.Ctx0 {
+			script[n-1].CtxEndsInWait = true
+		}
+	}
+	as := make([]string, len(script))
+	for i, a := range script {
 		out := "OSucc"
 		switch a.Out {
 		case "retry":
@@ -857,7 +993,8 @@ func coqRetry(sc *retrySc, o retryObs) string {
 	case "timeout":
 		res = "RTimeout"
 	}
-	return fmt.Sprintf("(CRetry %s %s %s %s %s)", cfg, h.Bool(sc.Ctx0), h.List(as), h.List(cs), res)
+	ctx0 := sc.Ctx0 || (timeoutFlavor(sc.Flavor) && len(o.Calls) == 0 && o.CtxDone && sc.Enabled) // a timer that fired before the first attempt
+	return fmt.Sprintf("(CRetry %s %s %s %s %s)", cfg, h.Bool(ctx0), h.List(as), h.List(cs), res)
 }
 
 func genRetry(r *h.Run) retrySc {
@@ -871,6 +1008,12 @@ func genRetry(r *h.Run) retrySc {
 	}
 	if sc.API == "if" {
 		sc.RetryCtxErr = r.Rng.Intn(2) == 0
+	}
+	if r.Rng.Intn(2) == 0 {
+		sc.Flavor = []string{"cancel", "cancel-cause", "parent-cause"}[r.Rng.Intn(3)]
+		if sc.Flavor != "cancel" {
+			sc.Cause = causeNames[1+r.Rng.Intn(len(causeNames)-1)]
+		}
 	}
 	style := r.Rng.Intn(5)
 	ln := r.Rng.Intn(11)
@@ -918,7 +1061,7 @@ func genRetry(r *h.Run) retrySc {
 }
 
 func retryKey(sc *retrySc) string {
-	return fmt.Sprintf("r|%s|%v|%d|%s|%d|%v|%s|%v|%v|%s", sc.API, sc.Enabled, sc.RetryMax, sc.Delay, sc.WaitNs, sc.RetryCtxErr, sc.CtxKind, sc.Ctx0, sc.Script, sc.Preset)
+	return fmt.Sprintf("r|%s|%v|%d|%s|%d|%v|%s|%v|%v|%s|%s|%s", sc.API, sc.Enabled, sc.RetryMax, sc.Delay, sc.WaitNs, sc.RetryCtxErr, sc.CtxKind, sc.Ctx0, sc.Script, sc.Preset, sc.Flavor, sc.Cause)
 }
 
 func runRetries(r *h.Run, scs []retrySc, emit bool) {
@@ -930,6 +1073,7 @@ func runRetries(r *h.Run, scs []retrySc, emit bool) {
 		sem <- struct{}{}
 		go func(i int) {
 			defer wg.Done()
+			scs[i].CtxKind = ctxKindOf(&scs[i])
 			obs[i] = execRetry(&scs[i])
 			<-sem
 		}(i)
@@ -945,6 +1089,25 @@ func runRetries(r *h.Run, scs []retrySc, emit bool) {
 		r.Count(fmt.Sprintf("retry:attempts-made=%d", len(obs[i].Calls)))
 		r.Count("retry:result=" + obs[i].Res)
 		r.Count("retry:api=" + sc.API)
+		if sc.Flavor != "" {
+			r.Count("retry:context=" + sc.Flavor)
+			if sc.Cause != "" {
+				r.Count("retry:cause=" + sc.Cause)
+			}
+		}
+		if sc.API == "if" && sc.Enabled && sc.WaitNs == 0 {
+			// the context ended during an attempt that failed retriably with budget left, no delay: both channels of
+			// retry-go's select are ready — which branch did the runtime take?
+			for j, c := range obs[i].Calls {
+				if !c.CtxDone && c.DoneAtEnd && attemptAt(&sc, c.K).Out == "retry" && j+1 < sc.RetryMax {
+					if obs[i].CondOnForeignErr > 0 {
+						r.Count("retry:select-both-ready=timer-branch")
+					} else {
+						r.Count("retry:select-both-ready=done-branch")
+					}
+				}
+			}
+		}
 		if !sc.Enabled {
 			r.Count("retry:disabled")
 		}
@@ -1009,6 +1172,56 @@ func retrySweeps(r *h.Run) {
 	for _, a := range []attemptSc{{Out: "succ"}, rt("plain"), {Out: "fatal", ErrKind: "plain"}, rt("canceled"), rt("deadline")} {
 		for _, c0 := range []bool{false, true} {
 			scs = append(scs, retrySc{API: "if", Enabled: false, RetryMax: 5, Delay: "fixed", CtxKind: "cancel", Ctx0: c0, Script: []attemptSc{a, {Out: "succ"}}})
+		}
+	}
+	// real contexts with and without custom causes: the kind of the result is that of ctx.Err(), whatever context.Cause says
+	rtEnds := func() attemptSc { a := rt("plain"); a.CtxEndsIn = true; return a }
+	for fi, fl := range []string{"cancel", "cancel-cause", "parent-cause", "timeout", "timeout-cause", "deadline-cause", "parent-timeout-cause"} {
+		causes := []string{"custom", "wraps-deadline", "wraps-canceled", "common-timeout", "common-cancelled", "nil"}
+		if fl == "cancel" || fl == "timeout" {
+			causes = []string{""}
+		}
+		for ci, ca := range causes {
+			tmo := 0
+			if timeoutFlavor(fl) {
+				tmo = 25
+			}
+			// ended during attempt k (k = 0, 1, 2), no delay: both select channels ready — repeated so that both branches occur
+			reps := 10
+			if timeoutFlavor(fl) {
+				reps = 6
+			}
+			for rep := 0; rep < reps; rep++ {
+				k := rep % 3
+				var s []attemptSc
+				for j := 0; j < k; j++ {
+					s = append(s, rt("plain"))
+				}
+				s = append(s, rtEnds(), rt("plain"), rt("plain"), rt("plain"))
+				api := "if"
+				if rep%5 == 4 {
+					api = "onerror"
+				}
+				scs = append(scs, retrySc{API: api, Enabled: true, RetryMax: 4 + rep%4, Delay: []string{"fixed", "backoff"}[rep/3%2], RetryCtxErr: api == "if" && rep%2 == 0,
+					Flavor: fl, Cause: ca, TimeoutMs: tmo, Script: s})
+			}
+			// ended during attempt k with a non-zero delay (the timer cannot be ready), during the wait, before the first attempt,
+			// during the last allowed attempt, during an attempt that fails for good / succeeds
+			endsWait := rt("plain")
+			endsWait.CtxEndsInWait = true
+			fatalEnds := attemptSc{Out: "fatal", ErrKind: "plain", CtxEndsIn: true}
+			succEnds := attemptSc{Out: "succ", CtxEndsIn: true}
+			api := []string{"if", "onerror"}[(fi+ci)%2]
+			scs = append(scs,
+				retrySc{API: api, Enabled: true, RetryMax: 3, Delay: "fixed", WaitNs: int64(time.Hour), Flavor: fl, Cause: ca, TimeoutMs: tmo, Script: []attemptSc{rtEnds(), rt("plain")}},
+				retrySc{API: api, Enabled: true, RetryMax: 3, Delay: "fixed", WaitNs: int64(time.Millisecond), Flavor: fl, Cause: ca, TimeoutMs: tmo, Script: []attemptSc{rt("plain"), rtEnds(), rt("plain")}},
+				retrySc{API: api, Enabled: true, RetryMax: 3, Delay: "backoff", WaitNs: int64(time.Hour), RetryCtxErr: api == "if", Flavor: fl, Cause: ca, TimeoutMs: tmo, Script: []attemptSc{endsWait, rt("plain")}},
+				retrySc{API: api, Enabled: true, RetryMax: 3, Delay: "fixed", Ctx0: true, Flavor: fl, Cause: ca, TimeoutMs: tmo, Script: []attemptSc{rt("plain")}},
+				retrySc{API: api, Enabled: true, RetryMax: 2, Delay: "fixed", Flavor: fl, Cause: ca, TimeoutMs: tmo, Script: []attemptSc{rt("plain"), rtEnds()}},
+				retrySc{API: api, Enabled: true, RetryMax: 3, Delay: "fixed", Flavor: fl, Cause: ca, TimeoutMs: tmo, Script: []attemptSc{rt("plain"), fatalEnds, rt("plain")}},
+				retrySc{API: api, Enabled: true, RetryMax: 3, Delay: "fixed", Flavor: fl, Cause: ca, TimeoutMs: tmo, Script: []attemptSc{rt("plain"), succEnds}},
+				retrySc{API: api, Enabled: false, RetryMax: 3, Delay: "fixed", Flavor: fl, Cause: ca, TimeoutMs: tmo, Script: []attemptSc{rtEnds()}},
+			)
 		}
 	}
 	// the library's preset policies (waits overridden), an operation that never succeeds
